@@ -529,8 +529,16 @@ def main():
             sys.exit(1)
         sys.exit(0)
 
+    # ---- 0. models regenerated from /repo's source (translator ties), before the proofs are re-checked
+    regen_notes = []
+    if plugin is not None and hasattr(plugin, "pre_build"):
+        regen_notes = plugin.pre_build(ctx) or []
+        for n_ in regen_notes:
+            log(f"{pid}: {n_}")
+
     # ---- 1. proofs
     thm_recs, proof_failures = ([], []) if a.no_proofs else check_proofs(pid, props, thorough)
+    proof_failures = [f"translator: {x}" for x in regen_notes if x.startswith("ERROR")] + proof_failures
     log(f"{pid}: {sum(1 for r in thm_recs if r['ok'])}/{len(thm_recs)} property theorems check" +
         (f"; FAILURES: {proof_failures}" if proof_failures else ""))
 
